@@ -403,7 +403,7 @@ def run_updown(ev, state, coords, job):
       fb = np.asarray(fine_grid.to_nodal(jnp.asarray(b)))
       scale = max(float(np.max(np.abs(fa))), 1e-30)
       err = float(np.max(np.abs(fa - fb))) / scale
-      if not err <= 1e-11:
+      if not err <= (1e-11 if jax.config.jax_enable_x64 else 2e-5):
         bad(f'up-sampled coefficients synthesise a different function on the finer '
             f'grid (rel err {err:.2e})')
         break
